@@ -142,6 +142,13 @@ func genOptions(r *Repo) (string, error) {
 		returnsErrorVal bool
 	}
 	var opts []optFacts
+	// package-level helper functions of options.go (not option constructors themselves)
+	helpers := map[string]*ast.FuncDecl{}
+	for _, d := range f.Decls {
+		if fd, ok := d.(*ast.FuncDecl); ok && fd.Recv == nil {
+			helpers[fd.Name.Name] = fd
+		}
+	}
 	for _, d := range f.Decls {
 		fd, ok := d.(*ast.FuncDecl)
 		if !ok || fd.Recv != nil || fd.Type.Results == nil || len(fd.Type.Results.List) != 1 {
@@ -173,15 +180,20 @@ func genOptions(r *Repo) (string, error) {
 					}
 				}
 			case *ast.IfStmt:
-				c := r.Text(x.Cond)
-				if strings.Contains(c, "== nil") && !strings.Contains(c, "s.router") && !strings.Contains(c, "s.route") {
-					// a nil check on an argument whose body returns an error
-					ast.Inspect(x.Body, func(m ast.Node) bool {
-						if rs, ok := m.(*ast.ReturnStmt); ok && len(rs.Results) == 1 && strings.Contains(r.Text(rs.Results[0]), "ErrInvalidConfig") {
-							o.nilCheck = true
-						}
-						return true
-					})
+				if nilCheckIf(r, x) {
+					o.nilCheck = true
+				}
+			case *ast.CallExpr:
+				// the check may live in a helper of the package that the constructor calls (one level)
+				if id, ok := x.Fun.(*ast.Ident); ok {
+					if h := helpers[id.Name]; h != nil && h.Body != nil {
+						ast.Inspect(h.Body, func(m ast.Node) bool {
+							if is, ok := m.(*ast.IfStmt); ok && nilCheckIf(r, is) {
+								o.nilCheck = true
+							}
+							return true
+						})
+					}
 				}
 			}
 			return true
@@ -336,4 +348,24 @@ func genOptions(r *Repo) (string, error) {
 	fmt.Fprintf(&sb, "def optionsSha : String := %s\n", leanStr(r.Sha("options.go", "fox.go", "route.go")))
 	sb.WriteString("\nend Fox.Generated\n")
 	return sb.String(), nil
+}
+
+// nilCheckIf: `if <argument> == nil { … return …ErrInvalidConfig… }` (a nil check on an argument, not on s.router / s.route)
+func nilCheckIf(r *Repo, x *ast.IfStmt) bool {
+	c := r.Text(x.Cond)
+	if !strings.Contains(c, "== nil") || strings.Contains(c, "s.router") || strings.Contains(c, "s.route") {
+		return false
+	}
+	found := false
+	ast.Inspect(x.Body, func(m ast.Node) bool {
+		if rs, ok := m.(*ast.ReturnStmt); ok {
+			for _, res := range rs.Results {
+				if strings.Contains(r.Text(res), "ErrInvalidConfig") {
+					found = true
+				}
+			}
+		}
+		return true
+	})
+	return found
 }
